@@ -481,7 +481,8 @@ func evalCall(pr *ProgResult, pl *InjPlan, items map[string]*Item, ct *CallTrace
 			pr.Stats[fmt.Sprintf("cleanups_%d", len(acquired))]++
 		}
 	}
-	// C12 aliasing for pointer-to-field inputs
+	// pointer identity: a consumer of a pointer-typed dependency must receive the very
+	// pointer its source produced (bindings share the instance; field pointers alias the field)
 	for i := range ct.Events {
 		e := &ct.Events[i]
 		if e.Ev != "prov" {
@@ -494,9 +495,20 @@ func evalCall(pr *ProgResult, pl *InjPlan, items map[string]*Item, ct *CallTrace
 		for j, t := range it.Params {
 			ed := x.memo[t.Key(p)]
 			if ed != nil && ed.K == "ptr" && ed.Addr != 0 && e.In[j].K == "ptr" {
-				pr.Stats["field_ptr_alias_checked"]++
+				prop, what := "C02", "pointer dependency"
+				if pv := pl.Info.prov[t.Key(p)]; pv != nil && pv.Item != nil {
+					switch pv.Item.Kind {
+					case KFields:
+						prop, what = "C12", "pointer to field"
+						pr.Stats["field_ptr_alias_checked"]++
+					case KBind:
+						prop, what = "C11", "bound interface"
+						pr.Stats["bound_ptr_identity_checked"]++
+					}
+				}
+				pr.Stats["ptr_identity_checked"]++
 				if e.In[j].Addr != ed.Addr {
-					pr.add("C12", fmt.Sprintf("provider %s got a pointer to field that does not alias the field inside the provided struct (%#x vs %#x)", e.Key, e.In[j].Addr, ed.Addr), wit())
+					pr.add(prop, fmt.Sprintf("provider %s: %s does not point to what its source produced (%#x vs %#x)", e.Key, what, e.In[j].Addr, ed.Addr), wit())
 				}
 			}
 		}
